@@ -860,7 +860,9 @@ class TlsHandshakeHelloRetryRequest(TlsHandshakeHello):
         validator=attr.validators.instance_of(TlsProtocolVersion),
     )
     random_bytes = attr.ib(
-        default=TLS_HANDSHAKE_HELLO_RETRY_REQUEST_RANDOM,
+        default=attr.Factory(
+            lambda: TlsHandshakeHelloRandom.parse_exact_size(TLS_HANDSHAKE_HELLO_RETRY_REQUEST_RANDOM_BYTES)
+        ),
         validator=attr.validators.instance_of(TlsHandshakeHelloRandom),
     )
     session_id = attr.ib(
